@@ -618,6 +618,11 @@ func (w *World) FlatWalk(root *FCtx, from *FPos, cut *FlatCut, visit func(FPos) 
 							callerFacts = withFact(callerFacts, s.ctx.Call, ei, true)
 						} else if isNilConst(x.Results[ei]) {
 							callerFacts = withFact(callerFacts, s.ctx.Call, ei, false)
+						} else if c2, i2 := errSource(x.Results[ei]); c2 != nil {
+							// `return k.step(...)`: the verdict of the step, when this activation knows it, is this call's verdict
+							if v, known := s.facts.lookup(c2, i2); known {
+								callerFacts = withFact(callerFacts, s.ctx.Call, ei, v)
+							}
 						}
 					}
 					for ri, rv := range x.Results {
